@@ -796,9 +796,10 @@ Qed.
 (* 5. the leader's MsgReadIndex handler                                *)
 (* ================================================================== *)
 
+(* the lone voter, and it is this node (fix 6a9ae91: [promotable] = "self is a voter") *)
 Definition singleton_conf (r : raft) : bool :=
   match incoming (conf_of r), outgoing (conf_of r) with
-  | [_], [] => true
+  | [_], [] => r_promotable r
   | _, _ => false
   end.
 
@@ -3173,7 +3174,7 @@ Proof. reflexivity. Qed.
 
 Lemma singleton_conf_def_pin r :
   singleton_conf r = match incoming (conf_of r), outgoing (conf_of r) with
-                     | [_], [] => true
+                     | [_], [] => r_promotable r
                      | _, _ => false
                      end.
 Proof. reflexivity. Qed.
@@ -3293,6 +3294,12 @@ Definition hb (from term : N) (ctx : list N) : msg :=
   msg_default <| m_type := MsgHeartbeat |> <| m_from := from |> <| m_term := term |>
               <| m_context := ctx |> <| m_commit := 3 |>.
 
+(* node 2 was leader and has been removed: the only voter left is node 1; node 2 is not
+   promotable (fix 6a9ae91) *)
+Definition c1 : conf := mkConf [1] [] [] [] false.
+Definition s_removed : raft :=
+  (s_raft Leader (s_log (e_norm 2 3) 3 3) c1 0 false 2) <| r_id := 2 |>.
+
 End C08Samples.
 
 Theorem reset_drops_reads_all :
@@ -3307,4 +3314,105 @@ Theorem reset_drops_reads_all :
 Proof.
   exact (conj reset_drops_reads (conj become_follower_drops_reads
           (conj become_candidate_drops_reads become_leader_drops_reads))).
+Qed.
+
+(* ================================================================== *)
+(* 19. regression guard for fix 6a9ae91 (single-voter shortcut needs   *)
+(*     self to be that voter) and construction                         *)
+(* ================================================================== *)
+
+Lemma singleton_conf_promotable r : r_promotable r = false -> singleton_conf r = false.
+Proof.
+  intros H. unfold singleton_conf. rewrite H.
+  destruct (incoming (conf_of r)) as [|a [|b l]]; try reflexivity.
+  destruct (outgoing (conf_of r)); reflexivity.
+Qed.
+
+(* a Safe-mode leader that is not promotable (= not a voter, e.g. removed or demoted by a
+   membership change) NEVER answers a MsgReadIndex at once, whatever its configuration (in
+   particular when exactly one voter, another node, remains): no new read state, no
+   MsgReadIndexResp; it either ignores the request (no own-term commit yet) or records it and
+   broadcasts heartbeats carrying the context *)
+Theorem nonpromotable_safe_never_answers_at_once_leader r m r' c :
+  r_promotable r = false -> ro_option (r_read_only r) = 0 -> m_type m = MsgReadIndex ->
+  step_leader r m = Ok (r', c) ->
+  c = E_OK /\ r_read_states r' = r_read_states r /\ rir (r_msgs r') = rir (r_msgs r) /\
+  ((commit_to_current_term r = Ok false /\ r' = r) \/
+   (commit_to_current_term r = Ok true /\ exists e rest, m_entries m = e :: rest /\
+      r' = r <| r_read_only := ro_after_request r m (e_data e) |>
+             <| r_msgs := r_msgs r ++ hb_list r (Some (e_data e)) (pids (t_progress (r_prs r))) |>)).
+Proof.
+  intros Hp Ho Ht H. pose proof (singleton_conf_promotable r Hp) as Hs.
+  destruct (commit_to_current_term r) as [[|]|s] eqn:Ec.
+  - destruct (readindex_safe_records_commit_leader r m r' c Ht Ec Hs Ho H) as (-> & e & rest & He & ->).
+    split; [reflexivity|]. split; [reflexivity|].
+    split; [cbn; rewrite rir_app, rir_hb_list, app_nil_r; reflexivity|]. right. eauto.
+  - rewrite (readindex_requires_own_term_commit_leader r m Ht Ec) in H. inversion H; subst. auto 10.
+  - rewrite step_leader_readindex_eq in H by exact Ht. unfold step_leader_readindex in H.
+    rewrite Ec in H. discriminate.
+Qed.
+
+Theorem nonpromotable_safe_never_answers_at_once r m r' c :
+  r_state r = Leader -> r_promotable r = false -> ro_option (r_read_only r) = 0 ->
+  m_type m = MsgReadIndex -> m_term m <= r_term r ->
+  step r m = Ok (r', c) ->
+  c = E_OK /\ r_read_states r' = r_read_states r /\ rir (r_msgs r') = rir (r_msgs r) /\
+  (r' = r \/
+   (commit_to_current_term r = Ok true /\ exists e rest, m_entries m = e :: rest /\
+      r' = r <| r_read_only := ro_after_request r m (e_data e) |>
+             <| r_msgs := r_msgs r ++ hb_list r (Some (e_data e)) (pids (t_progress (r_prs r))) |>)).
+Proof.
+  intros Hs Hp Ho Ht Hterm H.
+  assert (Hsame : (m_term m = 0 \/ m_term m = r_term r) ->
+    c = E_OK /\ r_read_states r' = r_read_states r /\ rir (r_msgs r') = rir (r_msgs r) /\
+    (r' = r \/
+     (commit_to_current_term r = Ok true /\ exists e rest, m_entries m = e :: rest /\
+        r' = r <| r_read_only := ro_after_request r m (e_data e) |>
+               <| r_msgs := r_msgs r ++ hb_list r (Some (e_data e)) (pids (t_progress (r_prs r))) |>))).
+  { intros Hst. rewrite step_readindex_leader in H by assumption.
+    rewrite <- step_leader_readindex_eq in H by exact Ht.
+    destruct (nonpromotable_safe_never_answers_at_once_leader r m r' c Hp Ho Ht H)
+      as (A & B & C0 & [(_ & D)|D]); auto 10. }
+  destruct (N.eq_dec (m_term m) 0) as [E0|E0]; [apply Hsame; auto|].
+  destruct (N.eq_dec (m_term m) (r_term r)) as [E1|E1]; [apply Hsame; auto|].
+  rewrite step_lower_term in H; [|exact E0|lia]. rewrite Ht in H.
+  change (MsgReadIndex =? MsgHeartbeat) with false in H. change (MsgReadIndex =? MsgAppend) with false in H.
+  change (MsgReadIndex =? MsgRequestPreVote) with false in H.
+  rewrite andb_false_r in H. inversion H; subst. auto 10.
+Qed.
+
+(* construction: a fresh node has no pending read and no read state *)
+Theorem raft_new_no_reads c st sa draws r :
+  raft_new c st sa draws = Ok (inr r) ->
+  r_read_only r = ro_new (c_read_only_option c) /\ RoInv (r_read_only r) /\
+  ro_queue (r_read_only r) = [] /\ ro_pending (r_read_only r) = [] /\ r_read_states r = [].
+Proof.
+  unfold raft_new. intros H. destruct (negb (cfg_validate c)); [discriminate|].
+  inv_bind H. destruct (ConfChange.restore empty_tracker (cs st)) as [[c' ids']|e]; [|discriminate].
+  inv_bind H. destruct x0 as [r2 new_cs]. cif H; [discriminate|].
+  inv_bind H. inv_bind H. inv_bind H. inv_bind H. inversion H; subst. clear H.
+  apply post_conf_change_reads in Hx0. destruct Hx0 as (G1 & served & Hrs & _ & Hcase).
+  assert (Hserved : served = []).
+  { destruct Hcase as [Es|(Es & _)]; [exact Es|]. cbn in Es. discriminate. }
+  subst served. cbn in Hrs. destruct G1 as (_ & _ & O1 & _). cbn in O1.
+  assert (F3 : fx r2 x0).
+  { destruct (hs_eqb (hs st) hs_default); [inversion Hx1; apply fx_refl|eapply load_state_fx; exact Hx1]. }
+  assert (F4 : fx x0 x1).
+  { destruct (0 <? c_applied c); [eapply commit_apply_internal_fx; exact Hx2|inversion Hx2; apply fx_refl]. }
+  pose proof (fx_trans _ _ _ F3 F4) as F. pose proof (fx_gx _ _ F) as (_ & _ & O4 & _).
+  destruct F as (_ & Frs & _).
+  apply become_follower_drops_reads in Hx3. destruct Hx3 as [A B].
+  assert (Hro : r_read_only r = ro_new (c_read_only_option c)) by (rewrite A, O4, O1; reflexivity).
+  rewrite Hro. split; [reflexivity|]. split; [apply RoInv_new|]. split; [reflexivity|]. split; [reflexivity|].
+  rewrite B, Frs, Hrs. reflexivity.
+Qed.
+
+Theorem rn_new_no_reads c st sa draws n :
+  rn_new c st sa draws = Ok (inr n) ->
+  r_read_only (rn_raft n) = ro_new (c_read_only_option c) /\ RoInv (r_read_only (rn_raft n)) /\
+  r_read_states (rn_raft n) = [].
+Proof.
+  unfold rn_new. intros H. destruct (c_id c =? 0); [discriminate|]. inv_bind H.
+  destruct x as [e|r]; inversion H; subst. cbn.
+  apply raft_new_no_reads in Hx. destruct Hx as (A & B & _ & _ & C0). auto.
 Qed.
